@@ -61,7 +61,7 @@ impl Obs {
             }
         }
         c.arg(if self == Obs::Growth { "leak" } else { "run" });
-        c.args([g.to_string(), from.to_string(), to.to_string()]);
+        c.args([g.to_string(), from.to_string(), to.to_string(), "1".to_string(), format!("--level={level}")]);
         c.env("MEMPROBE_LEVEL", level.to_string());
         c.env("CARGO_NET_OFFLINE", "true");
         c.stdout(Stdio::piped()).stderr(Stdio::piped());
@@ -78,7 +78,7 @@ pub struct GroupInfo {
 }
 
 pub fn groups(level: usize) -> Result<Vec<GroupInfo>, String> {
-    let out = Command::new(BIN).arg("groups").env("MEMPROBE_LEVEL", level.to_string()).output().map_err(|e| format!("cannot run {BIN}: {e}"))?;
+    let out = Command::new(BIN).arg("groups").arg(format!("--level={level}")).env("MEMPROBE_LEVEL", level.to_string()).output().map_err(|e| format!("cannot run {BIN}: {e}"))?;
     let text = String::from_utf8_lossy(&out.stdout);
     let mut v = Vec::new();
     for l in text.lines() {
